@@ -310,3 +310,9 @@ def run(ctx):
 
     # ---------------------------------------------------------------- C10.LEN
     check_len_published(ctx, "C10.LEN")
+
+    # ---------------------------------------------------------------- C10.ARGS
+    from ..rules_common import check_call_arguments
+    check_call_arguments(ctx, "C10.ARGS", "C10")
+
+
